@@ -21,7 +21,7 @@ struct C10 : Scenario {
     const char* measure() const override { return "distinct configuration/schedule classes of the runs whose records were checked"; }
     std::vector<std::string> assumptions() const override {
         return {"projection = the program's own Simpson-type weights (h/3 * {1,4,2,...,1}); moments = plain sums times the cell size divided by that integral",
-                "on renormalisation steps the stored wake potential may deviate from the convolution of the (renormalised) stored profile by a uniform factor bounded by the observed charge drift (the wake is computed before renormalising)",
+                
                 "the CSR spectrum is checked against its own sum only: the radiation impedance is not stored in the file",
                 "padding >= 2 (with less, HDF5File cannot create its datasets and the program aborts without a results file)"};
     }
@@ -286,12 +286,12 @@ struct C10 : Scenario {
                     double sc = num / den;   // best uniform factor stored/mine
                     // on a renormalisation step the wake was computed before the profile was rescaled; the rescaling factor
                     // (the charge drift since the last renormalisation) cannot be recovered from the file
-                    double allowed_scale = renorm_step ? std::max(0.05, 5 * drift_seen) : 2e-5;
+                    double allowed_scale = 2e-5; (void)drift_seen;   // since the renormalisation precedes the wake update, no leniency on renormalisation steps
                     if (std::fabs(sc - 1) > allowed_scale) o.fail("C10.wake_strength", at + ": stored wake potential is " + fmt_g(sc, 8) + " times the convolution of the stored profile with the stored impedance (machine-parameter scaling " + fmt_g(wakescale * N, 6) + ")");
                     else for (size_t i = 0; i < mine.size(); i++) {
                         // (on a renormalisation step every bunch is rescaled by its own factor, so the deviation is uniform
                         //  only per bunch: allow a residual of the order of the rescaling)
-                        double restol = renorm_step ? 3e-5 + 3 * std::max(std::max(std::fabs(sc - 1), drift_seen), 1e-4) : 3e-5;
+                        double restol = 3e-5;
                         if (std::fabs(wake[k * nb * n + i] - sc * mine[i]) > restol * wmax) { o.fail("C10.wake_is_convolution", at + ": WakePotential[" + std::to_string(i / n) + "][" + std::to_string(i % n) + "]=" + fmt_g(wake[k * nb * n + i], 9) + " but the convolution gives " + fmt_g(sc * mine[i], 9) + " (max " + fmt_g(wmax, 6) + ")"); break; }
                     }
                 }
